@@ -37,7 +37,7 @@ ASSUMPTIONS = [
     "reference evaluator pvf/refeval.py",
 ]
 
-GROUPS_TREE = ("arith", "div", "pow", "math", "index", "reshape", "transpose",
+GROUPS_TREE = ("arith", "div", "pow", "math", "index", "advindex", "reshape", "transpose",
                "broadcast", "expand", "squeeze", "unary")
 GROUPS_CONTRACT = ("einsum", "matmul", "einsum_dist")
 
